@@ -7,6 +7,8 @@ PROP = {
         "Verif.Properties.C10.enforced",
         "Verif.Properties.C10.inherited_complete",
         "Verif.Properties.C10.desugar_differs_witness",
+        "Verif.Properties.C10.desugar_equiv_partial",
+        "Verif.Properties.C10.enforced_vm_partial",
     ],
     "streams": [
         {"name": "cond", "driver": "drv_cond",
@@ -22,7 +24,12 @@ PROP = {
                   "every own and inherited pre-condition held in the entry state and every own and inherited "
                   "post-condition in the exit state, with before-values captured at entry and result bound to the "
                   "returned value (enforced), where 'inherited' covers every interface reachable from the composite "
-                  "(inherited_complete). Tied to /repo by the stream `cond`: (a) random conformance DAGs declared in "
+                  "(inherited_complete); the VM's desugared program (every inherited condition inlined into one "
+                  "function, before-variables renumbered) has the same outcome, final state and ordered log/event "
+                  "trace as the interpreter's wrappers whenever the before statements cannot fault and the "
+                  "post-conditions use only their own before-variables (desugar_equiv_partial, enforced_vm_partial; "
+                  "programSafe is a decidable sufficient condition); without that hypothesis the engines differ "
+                  "(desugar_differs_witness, known finding vm-before-hoisted-over-pre). Tied to /repo by the stream `cond`: (a) random conformance DAGs declared in "
                   "Cadence, EffectiveInterfaceConformances() of every type from the real checker vs the port, plus the "
                   "closure spec judged on the Go answer alone; (b) generated composites implementing interface DAGs "
                   "(diamonds) with emit/test conditions using before and result at every level, default and "
